@@ -202,6 +202,20 @@ def is_unwind(c):
     return "unwinding assertion" in c.get("description", "") or c.get("category") == "unwind"
 
 
+def is_unsupported(c):
+    d = c.get("description") or ""
+    f = c.get("function") or ""
+    if "__rust_alloc_error_handler" in d:
+        return False
+    return "is not currently supported by Kani" in d or "try_statx" in f
+
+
+def is_pointer_noise(c):
+    # after an unsupported construct CBMC also reports dereference checks with no location
+    loc = c.get("location", {}) or {}
+    return (c.get("description") or "").startswith("dereference failure") and (loc.get("file") in (None, "", "unknown"))
+
+
 def is_harness_internal(c):
     f = (c.get("location", {}) or {}).get("file") or ""
     d = c.get("description") or ""
@@ -232,6 +246,15 @@ def classify(h, res, stats, log_text):
          "file": c.get("location", {}).get("file"), "line": c.get("location", {}).get("line"),
          "category": c.get("category")} for c in failed]
     real_failed = [c for c in failed if not is_unwind(c)]
+    # "X is not currently supported by Kani" (a syscall / foreign function the edited code
+    # now reaches) says nothing about the property: inconclusive unless a genuine check
+    # fails too. The allocation-error handler is the exception: reaching it IS the abort
+    # that C02 forbids.
+    unsupported = [c for c in real_failed if is_unsupported(c)]
+    if unsupported and len(unsupported) == len([c for c in real_failed if not is_pointer_noise(c)]):
+        out.update(status="inconclusive", reason="code reaches a construct Kani cannot model: " + "; ".join(
+            (c.get("description") or "")[:120] for c in unsupported[:2]))
+        return out
     # An arithmetic / bounds check that fails INSIDE a harness file is a defect of the
     # harness (e.g. an overflowing oracle expression), never evidence about /repo.
     harness_bugs = [c for c in real_failed if is_harness_internal(c)]
